@@ -35,15 +35,26 @@ theorem psb_short (f : Nat) (e b : Nat) (h : (e, b) ∈ shortEsc) (w acc : Bytes
   rcases h with ⟨rfl, rfl⟩ | ⟨rfl, rfl⟩ | ⟨rfl, rfl⟩ | ⟨rfl, rfl⟩ | ⟨rfl, rfl⟩ | ⟨rfl, rfl⟩ | ⟨rfl, rfl⟩ | ⟨rfl, rfl⟩ <;>
     simp [Json.parseStringBody]
 
-/-- a surrogate pair in a quoted identifier: both escapes are consumed, `utf16.DecodeRune` is written -/
+/-- a surrogate pair in a quoted identifier: both escapes are consumed, `utf16.DecodeRune` is written
+    (FX28: provided the two escapes are a high surrogate followed by a low one, i.e. `utf16.DecodeRune` is not U+FFFD) -/
 theorem contQ_pair (f : Nat) (v v' v'' acc : Bytes) (r r2 : Nat)
     (h1 : Json.hex4 v = some (r, 0x5C :: 0x75 :: v')) (hs : Json.isSurrogate r = true)
-    (h2 : Json.hex4 v' = some (r2, v'')) :
+    (h2 : Json.hex4 v' = some (r2, v'')) (hne : Json.utf16Decode r r2 ≠ 0xFFFD) :
     contQ (f + 1) (0x5C :: 0x75 :: v) acc = contQ f v'' (acc ++ encodeRune (Json.utf16Decode r r2)) := by
   unfold contQ
   rw [split_bs]
-  simp [quotedLoop, h1, hs, h2]
+  simp [quotedLoop, h1, hs, h2, hne]
   cases splitAtBackslash v'' [] <;> rfl
+
+/-- FX28: a surrogate escape followed by an escape with which it does not form a (high, low) pair: the quoted
+    identifier is rejected (before the fix U+FFFD was written and the second escape was swallowed) -/
+theorem contQ_unpaired (f : Nat) (v v' v'' acc : Bytes) (r r2 : Nat)
+    (h1 : Json.hex4 v = some (r, 0x5C :: 0x75 :: v')) (hs : Json.isSurrogate r = true)
+    (h2 : Json.hex4 v' = some (r2, v'')) (he : Json.utf16Decode r r2 = 0xFFFD) :
+    contQ (f + 1) (0x5C :: 0x75 :: v) acc = none := by
+  unfold contQ
+  rw [split_bs]
+  simp [quotedLoop, h1, hs, h2, he]
 
 /-- a surrogate that is not followed by another `\u` escape: the quoted identifier is rejected -/
 theorem contQ_lone (f : Nat) (v v' acc : Bytes) (r : Nat)
@@ -144,6 +155,25 @@ theorem utf16Decode_pair {hi lo : Nat} (h1 : 0xD800 ≤ hi) (h2 : hi < 0xDC00) (
     Json.utf16Decode hi lo = 0x10000 + (hi - 0xD800) * 1024 + (lo - 0xDC00) := by
   unfold Json.utf16Decode
   rw [if_pos ⟨h1, h2, h3, h4⟩]; omega
+
+/-- `utf16.DecodeRune` on a (high, low) pair is a supplementary-plane scalar, in particular not U+FFFD -/
+theorem utf16Decode_pair_ne {hi lo : Nat} (h1 : 0xD800 ≤ hi) (h2 : hi < 0xDC00) (h3 : 0xDC00 ≤ lo) (h4 : lo < 0xE000) :
+    Json.utf16Decode hi lo ≠ 0xFFFD := by
+  rw [utf16Decode_pair h1 h2 h3 h4]; omega
+
+/-- `utf16.DecodeRune` is U+FFFD exactly when its arguments are not a high surrogate followed by a low one -/
+theorem utf16Decode_eq_fffd_iff (r r2 : Nat) :
+    Json.utf16Decode r r2 = 0xFFFD ↔ ¬ (0xD800 ≤ r ∧ r < 0xDC00 ∧ 0xDC00 ≤ r2 ∧ r2 < 0xE000) := by
+  unfold Json.utf16Decode
+  by_cases h : 0xD800 ≤ r ∧ r < 0xDC00 ∧ 0xDC00 ≤ r2 ∧ r2 < 0xE000
+  · rw [if_pos h]
+    constructor
+    · intro e; omega
+    · intro n; exact absurd h n
+  · rw [if_neg h]
+    constructor
+    · intro _; exact h
+    · intro _; rfl
 
 /-! ## 2. an invalid quoted identifier is a syntax error -/
 
@@ -427,6 +457,14 @@ example : contQ 3 [0x5C, 0x75, 0x44, 0x38, 0x33, 0x44, 0x5C, 0x75, 0x44, 0x45, 0
   decide
 example : Json.parseStringBody 4 [0x5C, 0x75, 0x44, 0x38, 0x33, 0x44, 0x5C, 0x75, 0x44, 0x45, 0x30, 0x30, 0x22] []
     = some ([0xF0, 0x9F, 0x98, 0x80], []) := by decide
+-- `contQ_unpaired` (FX28): `\uD800\u0041` and `\uDC00\uD800` are rejected; JSON strings still read U+FFFD and resume
+example : contQ 3 [0x5C, 0x75, 0x44, 0x38, 0x30, 0x30, 0x5C, 0x75, 0x30, 0x30, 0x34, 0x31] [] = none := by decide
+example : contQ 3 [0x5C, 0x75, 0x44, 0x43, 0x30, 0x30, 0x5C, 0x75, 0x44, 0x38, 0x30, 0x30] [] = none := by decide
+example : Json.parseStringBody 4 [0x5C, 0x75, 0x44, 0x38, 0x30, 0x30, 0x5C, 0x75, 0x30, 0x30, 0x34, 0x31, 0x22] []
+    = some ([0xEF, 0xBF, 0xBD, 0x41], []) := by decide
+-- `utf16Decode_pair_ne`, `utf16Decode_eq_fffd_iff`
+example : Json.utf16Decode 0xDBFF 0xDC00 ≠ 0xFFFD := utf16Decode_pair_ne (by omega) (by omega) (by omega) (by omega)
+example : Json.utf16Decode 0xDC00 0xD800 = 0xFFFD := (utf16Decode_eq_fffd_iff _ _).2 (by omega)
 -- `contQ_lone` / `psb_lone`: `\uD800x`
 example : contQ 3 [0x5C, 0x75, 0x44, 0x38, 0x30, 0x30, 0x78] [] = none := by decide
 example : Json.parseStringBody 4 [0x5C, 0x75, 0x44, 0x38, 0x30, 0x30, 0x78, 0x22] [] = some ([0xEF, 0xBF, 0xBD, 0x78], []) := by
